@@ -204,7 +204,7 @@ impl RegistryCore {
 
                 // Add registry common labels, if any.
                 if let Some(ref hmap) = self.labels {
-                    let pairs: Vec<proto::LabelPair> = hmap
+                    let mut pairs: Vec<proto::LabelPair> = hmap
                         .iter()
                         .map(|(k, v)| {
                             let mut label = proto::LabelPair::default();
@@ -213,6 +213,9 @@ impl RegistryCore {
                             label
                         })
                         .collect();
+                    // Hash map iteration order differs from registry to registry
+                    // and from run to run: append the labels in name order.
+                    pairs.sort();
 
                     for metric in m.mut_metric().iter_mut() {
                         let mut labels: Vec<_> = metric.take_label();
